@@ -192,6 +192,7 @@ class ESys:
         self.libpath_m = self.dir / "x.mlib"
         self.libpath_c = self.dir / "x.clib"
         self._fx = None
+        self._memos = self._memo_wrappers()
 
     # ---- alphabet rotation --------------------------------------------------------------------
     def rot(self, lst):
@@ -277,6 +278,8 @@ class ESys:
     # ---- protocol -----------------------------------------------------------------------------
     def build(self, hist):
         st = EState()
+        for _, f in self._memos:
+            f.cache_clear()
         self._fixtures(st)
         self.quiet = True
         try:
@@ -522,8 +525,7 @@ class ESys:
             return ok
 
         e = st.ens
-        if not self.quiet:
-            pre = (st.mc.copy(), st.mq.copy(), st.mw.copy())
+        pre = (st.mc.copy(), st.mq.copy(), st.mw.copy())
 
         if kind in ("append", "extend"):
             src = op[1]
@@ -842,8 +844,9 @@ class ESys:
         return f"{name}-changed"
 
     def _check_state(self, st, op, oc, target, pre, alias, after_failure=False):
-        if self.quiet:
-            return True
+        # NOTE: also executed while a validated prefix is replayed (quiet mode): the reads below are
+        # part of the history (an implementation that caches on first read must see the same reads
+        # in the replay as in the first execution); a difference then is a harness error.
         e = st.ens
         nc, na = st.nc, st.na
         ok = True
@@ -1053,6 +1056,88 @@ class ESys:
         return True
 
     # ---- canonical form -----------------------------------------------------------------------
+    # ---- hidden state -------------------------------------------------------------------------
+    KNOWN_ATTRS = frozenset(
+        ["_name", "_atoms", "_atomic_charges", "_bonds", "_adjacency", "_coords", "charge", "mult", "attrib", "_parent", "__weakref__", "_weights"]
+    )
+
+    @staticmethod
+    def _memo_wrappers():
+        """every functools cache (lru_cache / cache, also behind a property) defined on the classes of
+        an ensemble or a conformer: cleared before a state is rebuilt, their fill level is state"""
+        from molli.chem.ensemble import Conformer
+
+        out = []
+        seen = set()
+        for cls in list(ConformerEnsemble.__mro__) + list(Conformer.__mro__):
+            if cls is object or cls in seen:
+                continue
+            seen.add(cls)
+            for name, val in sorted(vars(cls).items()):
+                for f in (val, getattr(val, "fget", None), getattr(val, "__func__", None)):
+                    if f is not None and callable(getattr(f, "cache_clear", None)) and callable(getattr(f, "cache_info", None)):
+                        out.append((f"{cls.__name__}.{name}", f))
+        return out
+
+    def _finger(self, v, e, depth=0):
+        """cheap structural digest of a value the reference model knows nothing about"""
+        from molli.chem.ensemble import Conformer
+
+        if v is None or isinstance(v, (bool, int)):
+            return repr(v)
+        if isinstance(v, str):
+            return ("str", v[:32])
+        if isinstance(v, float):
+            return ("float",)
+        if isinstance(v, np.ndarray):
+            return ("ndarray", tuple(v.shape), v.dtype.str)
+        if isinstance(v, Conformer):
+            return ("Conformer", getattr(v, "_conf_id", None), getattr(v, "_parent", None) is e)
+        if isinstance(v, dict):
+            items = list(v.items())[:12] if depth < 2 else []
+            try:
+                keys = tuple(sorted(repr(k)[:24] for k, _ in items))
+            except Exception:
+                keys = ()
+            return ("dict", type(v).__name__, len(v), keys, tuple(self._finger(x, e, depth + 1) for _, x in items))
+        if isinstance(v, (list, tuple, set, frozenset)):
+            seq = list(v)[:12] if depth < 2 and not isinstance(v, (set, frozenset)) else []
+            return (type(v).__name__, len(v), tuple(self._finger(x, e, depth + 1) for x in seq))
+        n = None
+        try:
+            n = len(v)
+        except Exception:
+            pass
+        return ("obj", type(v).__name__, n)
+
+    def hidden_state(self, st):
+        """fingerprint of ALL instance state of the ensemble that the model does not account for:
+        names of every instance attribute (dict and slots), and for each unknown one its structure;
+        plus the fill level of every memoising wrapper on the classes"""
+        e = st.ens
+        names = set()
+        d = getattr(e, "__dict__", None)
+        if d is not None:
+            names |= set(d)
+        for cls in type(e).__mro__:
+            sl = cls.__dict__.get("__slots__", ())
+            for n in (sl,) if isinstance(sl, str) else sl:
+                if n not in ("__weakref__", "__dict__") and hasattr(e, n):
+                    names.add(n)
+        unknown = []
+        for n in sorted(names - self.KNOWN_ATTRS):
+            try:
+                unknown.append((n, self._finger(getattr(e, n), e)))
+            except Exception as ex:  # pragma: no cover
+                unknown.append((n, "EXC", exc_name(ex)))
+        memo = []
+        for name, f in self._memos:
+            try:
+                memo.append((name, f.cache_info().currsize))
+            except Exception:  # pragma: no cover
+                memo.append((name, None))
+        return (tuple(sorted(names)), tuple(unknown), tuple(memo))
+
     def canon(self, st):
         e = st.ens
         if e is None:
@@ -1079,6 +1164,7 @@ class ESys:
             slots,
             all(a.parent is e for a in e.atoms),
             tuple(int(a.element) for a in e.atoms),
+            self.hidden_state(st),
         )
 
     def observe(self, st):
